@@ -127,7 +127,7 @@ PARAMS = {
 # functions of mir_eval/util.py, in emission order; REQUIRED: one that leaves the subset is a translator problem
 WANTED = ["validate_intervals", "intervals_to_durations", "intervals_to_boundaries", "boundaries_to_intervals",
           "sort_labeled_intervals", "adjust_events", "adjust_intervals", "interpolate_intervals", "intervals_to_samples",
-          "merge_labeled_intervals", "index_labels"]
+          "merge_labeled_intervals", "index_labels", "generate_labels"]
 
 EXC = {"ValueError": "valueError", "IndexError": "indexError", "TypeError": "typeError", "KeyError": "keyError",
        "ZeroDivisionError": "zeroDivision"}
